@@ -327,6 +327,7 @@ type resCfg struct {
 	W          []string
 	LowerIDs   bool // id interceptor: strings.ToLower
 	Equiv      bool // WithNoDuplicates-like equivalence on the flat fields
+	Ballast    bool // every written message carries a constant nested part (see ballast)
 	EquivNoV   bool // WithMessageEquivalence: messages that differ only in V are equivalent
 	EquivTolN  bool // with EquivNoV: N within 1 of each other also counts as equivalent (a tolerance: not transitive)
 	Initial    map[string]mm
@@ -384,12 +385,12 @@ func newRealResWith(cfg resCfg, clock *simClock, rng io.Reader) *realRes {
 		}
 		sort.Strings(ids)
 		for _, id := range ids {
-			opts = append(opts, resource.WithInitialRecord(id, cfg.Initial[id].pb()))
+			opts = append(opts, resource.WithInitialRecord(id, cfg.Initial[id].pbWith(cfg.Ballast)))
 		}
 		r.col = resource.NewCollection(opts...)
 	} else {
 		if cfg.HasInitial {
-			opts = append(opts, resource.WithInitialValue(cfg.InitialVal.pb()))
+			opts = append(opts, resource.WithInitialValue(cfg.InitialVal.pbWith(cfg.Ballast)))
 		}
 		r.val = resource.NewValue(opts...)
 	}
@@ -398,8 +399,8 @@ func newRealResWith(cfg resCfg, clock *simClock, rng io.Reader) *realRes {
 
 // written is the message handed to the write. For an odd delta the library's own interceptor style is used (see writeOpts):
 // the message carries the delta itself.
-func (o wop) written() *testproto.TestAllTypes {
-	m := o.Val.pb()
+func (o wop) written(withBallast bool) *testproto.TestAllTypes {
+	m := o.Val.pbWith(withBallast)
 	if o.HasDelta && o.Delta%2 != 0 {
 		m.DefaultInt64 = o.Delta
 	}
@@ -408,7 +409,7 @@ func (o wop) written() *testproto.TestAllTypes {
 
 var errCheck = status.Error(codes.OutOfRange, "expected check failed")
 
-func (o wop) writeOpts(res *wres) []resource.WriteOption {
+func (o wop) writeOpts(res *wres, withBallast bool) []resource.WriteOption {
 	var opts []resource.WriteOption
 	if o.HasMask {
 		opts = append(opts, resource.WithUpdateMask(fm(o.Mask)))
@@ -417,7 +418,7 @@ func (o wop) writeOpts(res *wres) []resource.WriteOption {
 		opts = append(opts, resource.WithResetMask(fm(o.Reset)))
 	}
 	if o.HasExpect {
-		opts = append(opts, resource.WithExpectedValue(o.Expect.pb()))
+		opts = append(opts, resource.WithExpectedValue(o.Expect.pbWith(withBallast)))
 	}
 	if o.HasCheck {
 		want := o.CheckV
@@ -533,19 +534,19 @@ func (r *realRes) apply(o wop) wres {
 	}
 	switch o.Kind {
 	case opSet:
-		p, err := r.val.Set(o.written(), o.writeOpts(&res)...)
+		p, err := r.val.Set(o.written(r.cfg.Ballast), o.writeOpts(&res, r.cfg.Ballast)...)
 		res.Code = errCode(err)
 		setMsg(p)
 	case opAdd:
-		p, err := r.col.Add(o.ID, o.written(), o.writeOpts(&res)...)
+		p, err := r.col.Add(o.ID, o.written(r.cfg.Ballast), o.writeOpts(&res, r.cfg.Ballast)...)
 		res.Code = errCode(err)
 		setMsg(p)
 	case opUpdate:
-		p, err := r.col.Update(o.ID, o.written(), o.writeOpts(&res)...)
+		p, err := r.col.Update(o.ID, o.written(r.cfg.Ballast), o.writeOpts(&res, r.cfg.Ballast)...)
 		res.Code = errCode(err)
 		setMsg(p)
 	case opDelete:
-		p, err := r.col.Delete(o.ID, o.writeOpts(&res)...)
+		p, err := r.col.Delete(o.ID, o.writeOpts(&res, r.cfg.Ballast)...)
 		res.Code = errCode(err)
 		setMsg(p)
 	case opGet:
